@@ -55,6 +55,8 @@ class EngineProp(Prop):
         out = [self._args(seed, 375, corpus if k == 0 else ()) for k in range(16)]
         for g in (1, 2, 16):
             out.append(self._args(seed + 1000 + g, 200, ["--gomaxprocs", str(g)]))
+        # exhaustive: every filter mask of a batch of 5..8 records through filter -> transform (v2)
+        out.append(self._args(seed, 0, ["--family", "masks"]))
         return out
 
     def search_shards(self, tier, seed, round_no):
